@@ -62,14 +62,27 @@ JudgeSave(doc, fmt, res, bytes) ==
     ELSE IF ~TrailerMatches(doc, rd) THEN [v |-> "file-trailer-differs"]
     ELSE [v |-> "ok"]
 
-\* verdict of a Load of the bytes whose strict reading is rd
-JudgeLoad(doc, res, rd) ==
+\* Classifier: does the loaded document equal the reading of the file with end-of-line normalisation
+\* in literal strings switched off (raw CR / CRLF kept verbatim)?
+VerbatimEolExplains(doc, bytes) ==
+    LET rv == RdFileV(bytes, TRUE) IN
+    rv.ok /\ BadObjects(doc, rv) = {} /\ ExtraInView(doc, rv) = {} /\ ExtraInDoc(doc, rv) = {} /\ TrailerMatches(doc, rv)
+
+\* verdict of a Load of `bytes`, whose strict reading is rd
+JudgeLoad(doc, res, rd, bytes) ==
     IF res # "ok" THEN [v |-> "load-failed", res |-> res]
     ELSE IF rd.version # doc.version THEN [v |-> "load-version"]
-    ELSE IF BadObjects(doc, rd) # {} THEN [v |-> "load-object-differs", nums |-> BadObjects(doc, rd)]
     ELSE IF ExtraInView(doc, rd) # {} THEN [v |-> "load-object-missing", nums |-> ExtraInView(doc, rd)]
+    ELSE IF BadObjects(doc, rd) # {} THEN
+        [v |-> "load-object-differs", nums |-> BadObjects(doc, rd), verbatim |-> VerbatimEolExplains(doc, bytes),
+         kinds |-> UNION {IF rd.view[doc.objs[i].num].gen # doc.objs[i].gen THEN {"generation"}
+                          ELSE DiffKinds(doc.objs[i].val, rd.view[doc.objs[i].num].val) :
+                          i \in {i \in 1..Len(doc.objs) : doc.objs[i].num \in BadObjects(doc, rd)}}]
     ELSE IF ExtraInDoc(doc, rd) # {} THEN [v |-> "load-extra-object", nums |-> ExtraInDoc(doc, rd)]
-    ELSE IF ~TrailerMatches(doc, rd) THEN [v |-> "load-trailer-differs"]
+    ELSE IF ~TrailerMatches(doc, rd) THEN
+        [v |-> "load-trailer-differs", verbatim |-> VerbatimEolExplains(doc, bytes),
+         kinds |-> IF DOMAIN doc.trailer \ BookKeys # DOMAIN rd.trailer \ BookKeys THEN {"keys"}
+                   ELSE UNION {DiffKinds(doc.trailer[key], rd.trailer[key]) : key \in DOMAIN doc.trailer \ BookKeys}]
     ELSE [v |-> "ok"]
 
 -----------------------------------------------------------------------------
